@@ -115,6 +115,8 @@ def judge_matching(graph, result):
         return ("ok" if not exists else "false_none"), exists
     if not isinstance(result, list) or len(result) != n:
         return "bad_shape", exists
+    if any(j is None for j in result):
+        return "incomplete_matching", exists      # some node left unmatched although a matching was returned
     for i in range(n):
         j = result[i]
         if not isinstance(j, int) or not (0 <= j < n) or j == i:
